@@ -45,7 +45,7 @@ func (p *Printer) fail(f string, a ...interface{}) {
 var wsChoices = []string{" ", "\t", "\n", "\r\n", "\r", "  "}
 
 func (p *Printer) comment() string {
-	bodies := []string{"", " c ", "x]}){{\"'", " '''\" ", "**", " a::b ", "/ /", " \\ "}
+	bodies := []string{"", " c ", "x]}){{\"'", " '''\" ", "**", " a::b ", "/ /", " \\ ", "/", "/ x ", "*", "/*", "//", "* /"}
 	b := bodies[p.C.Intn(len(bodies))]
 	if p.C.Intn(2) == 0 {
 		nl := []string{"\n", "\r\n", "\r"}[p.C.Intn(3)]
